@@ -526,8 +526,13 @@ func executeLive(t *testing.T, prop string, seed uint64, p *LivePlan) *core.Resu
 			if o.clientState.ECHAccepted != wantAccept {
 				fail("ech-acceptance", fmt.Sprintf("client ECHAccepted=%v want %v", o.clientState.ECHAccepted, wantAccept), "conn %d", n)
 			}
-			if o.frontName != p.ServerName {
-				fail("routing", "Conn.ServerName", "conn %d: %q want %q", n, o.frontName, p.ServerName)
+			wantName := p.ServerName
+			if net.ParseIP(wantName) != nil {
+				wantName = "" // no server_name extension for IP literals
+				res.Probe("inner_without_sni")
+			}
+			if o.frontName != wantName {
+				fail("routing", "Conn.ServerName", "conn %d: %q want %q", n, o.frontName, wantName)
 			}
 			if !sameStrings(o.frontALPN, p.ClientALPN) {
 				fail("routing", "Conn.ALPNProtos", "conn %d: %q want %q", n, o.frontALPN, p.ClientALPN)
@@ -545,7 +550,7 @@ func executeLive(t *testing.T, prop string, seed uint64, p *LivePlan) *core.Resu
 			if chi.ServerName != o.frontName || !sameStrings(chi.SupportedProtos, o.frontALPN) {
 				fail("routing", "Conn vs backend ClientHelloInfo", "conn %d: Conn (%q,%q) backend (%q,%q)", n, o.frontName, o.frontALPN, chi.ServerName, chi.SupportedProtos)
 			}
-			if o.backendState.ServerName != p.ServerName || o.backendState.NegotiatedProtocol != o.clientState.NegotiatedProtocol {
+			if o.backendState.ServerName != wantName || o.backendState.NegotiatedProtocol != o.clientState.NegotiatedProtocol {
 				fail("routing", "backend ConnectionState", "conn %d: backend name=%q proto=%q client proto=%q", n, o.backendState.ServerName, o.backendState.NegotiatedProtocol, o.clientState.NegotiatedProtocol)
 			}
 			if wantResume && !(o.clientState.DidResume && o.backendState.DidResume) {
